@@ -122,27 +122,7 @@ class C05Oracle(Oracle):
             return
         if not out.ok:
             if liquid:
-                # A rejected liquid operation may have applied some of its sub-steps. The model cannot know which:
-                # narrowly, the wells the call addressed become "content unknown" (exempt from mix/sum until they
-                # are emptied and refilled), their volumes are taken over, everything else must be untouched -
-                # and the history goes on, so that state left behind by a failed call is seen by later steps.
-                self.res.ended_by_rejection = True
-                try:
-                    pl = opsmod.plan(op, self.sess.geos)
-                except opsmod.PlanInvalid:
-                    self.stop = True
-                    return
-                touched = opsmod.addressed(pl)
-                if not self.same_comp(self.pre_snap, self.comp_snapshot(), touched):
-                    self.fail("C05.frame", i, op, oc, f"the rejected {k} changed the composition of a well it did not address")
-                    self.stop = True
-                    return
-                for (li, w) in touched:
-                    v = self.sess.volumes(li)[w]
-                    if v == v:
-                        self.ledger.vol[li][w] = frac(v)
-                    self.ledger.taint[li].add(w)
-                self.rejected_seen += 1
+                self.after_rejected(i, op, out, oc, k)
             return
         if not liquid:
             return
@@ -256,6 +236,88 @@ class C05Oracle(Oracle):
                               f"{g.name}.{wid}: get_well_composition gives {got!r} of {name!r}, expected {float(e)!r}")
                     self.stop = True
                     return
+
+    SEQUENTIAL = ("add", "dispense", "evo_dispense", "remove", "aspirate", "evo_aspirate", "distribute")
+
+    def after_rejected(self, i, op, out, oc, k):
+        """A rejected liquid operation may have applied some of its sub-steps; the history goes on, so that state
+        left behind by a failed call is seen by the later steps.  What is still claimed, narrowly:
+          * wells the call did not address: composition bit-identical;
+          * wells the call only removes from: composition bit-identical (removing never changes it);
+          * wells the call only adds to and whose volume did not change: nothing arrived, composition bit-identical;
+          * calls whose elements are applied one after the other (add/dispense/remove/aspirate/evo_*/distribute):
+            the elements before the first refused one were applied *with* their composition (or nothing was);
+          * every other addressed well becomes "content unknown" (exempt from mix/sum until emptied and refilled)."""
+        self.res.ended_by_rejection = True
+        try:
+            pl = opsmod.plan(op, self.sess.geos)
+        except opsmod.PlanInvalid:
+            self.stop = True
+            return
+        steps = pl["steps"]
+        touched = opsmod.addressed(pl)
+        now_snap = self.comp_snapshot()
+        vols = {}
+        for (li, w) in touched:
+            if li not in vols:
+                vols[li] = self.sess.volumes(li)
+        rm_only = {(st[1], st[2]) for st in steps if st[0] == "rm"} - {(st[1], st[2]) for st in steps if st[0] == "add"}
+        add_only = {(st[1], st[2]) for st in steps if st[0] == "add"} - {(st[1], st[2]) for st in steps if st[0] == "rm"}
+        # --- sequential calls: find the applied prefix (k elements, or nothing)
+        applied = None
+        if k in self.SEQUENTIAL:
+            import copy
+
+            trial = copy.deepcopy(self.ledger)
+            kk = None
+            for n, st in enumerate(steps):
+                r = trial.check_step(st, Fraction(1, 10 ** 6))
+                if r != "ok":
+                    kk = n if r == "reject" else None
+                    break
+                trial.apply_step(st)
+            if kk is not None:
+                def matches(led):
+                    return all(vols[li][w] == vols[li][w] and abs(frac(vols[li][w]) - led.vol[li][w]) <= Fraction(1, 10 ** 9) * max(1, abs(led.vol[li][w]))
+                               for (li, w) in touched)
+                if matches(trial):
+                    applied = trial  # the prefix before the refused element
+                elif matches(self.ledger):
+                    applied = self.ledger  # nothing was applied
+        if applied is not None:
+            prefix_wells = set()
+            if applied is not self.ledger:
+                # (also zero-volume additions: re-mixing with nothing may re-round the fractions of that well)
+                prefix_wells = {(st[1], st[2]) for st in steps[:kk] if st[0] == "add"}
+                self.ledger = applied
+            if not self.same_comp(self.pre_snap, now_snap, prefix_wells):
+                self.fail("C05.rejected_inert", i, op, oc,
+                          f"the rejected {k} changed the composition of a well that received no liquid")
+                self.stop = True
+                return
+            self.check_wells(i, op, sorted(prefix_wells))
+            self.rejected_seen += 1
+            return
+        # --- order unknown (transfer) or ambiguous: inert wells stay exact, the rest becomes unknown
+        inert = set()
+        for (li, w) in touched:
+            pre_v = self.ledger.vol[li][w]
+            same_v = vols[li][w] == vols[li][w] and frac(vols[li][w]) == pre_v
+            if (li, w) in rm_only or ((li, w) in add_only and same_v):
+                inert.add((li, w))
+        if not self.same_comp(self.pre_snap, now_snap, touched - inert):
+            self.fail("C05.rejected_inert", i, op, oc,
+                      f"the rejected {k} changed the composition of a well it only removes from, of a well that received "
+                      f"no liquid, or of a well it did not address")
+            self.stop = True
+            return
+        for (li, w) in touched:
+            v = vols[li][w]
+            if v == v:
+                self.ledger.vol[li][w] = frac(v)
+            if (li, w) not in inert:
+                self.ledger.taint[li].add(w)
+        self.rejected_seen += 1
 
     def self_overlap(self, op, pl):
         if op["src"] != op["dst"]:
